@@ -18,7 +18,7 @@ structure TSt where
 
 def TSt.report (s : TSt) (cls kind detail : String) : TSt :=
   let s := if cls == "model" then { s with nModel := s.nModel + 1 } else { s with nSpec := s.nSpec + 1 }
-  if s.reports.size < 40 then
+  if keepReport s.reports s!"class={cls} props=C06 kind={kind} " then
     { s with reports := s.reports.push s!"MISMATCH class={cls} props=C06 kind={kind} line={s.lineNo} {detail}" }
   else s
 
